@@ -5,11 +5,14 @@ from checks import _wrap
 
 META = {
     "level": "other",
-    "text": "Deductive (unbounded): test_all.chi2_fcn is verified from its AST for any number of parameters: the likelihood is evaluated exactly at p with p_i = x_i (sign None), "
+    "text": "Deductive (unbounded): the multi-start region of optimise_fun (from the reset of chi2_min to the hand-back) is verified from its AST with scipy's minimize "
+            "opaque (fun = chi2_fcn(x, signs)): whenever a finite best value is found the returned parameters are exactly the point at which the likelihood was evaluated for the "
+            "selected result (x in linear mode, +/-10**x with the signs of the branch that produced it in log mode, zero padded), so the likelihood at the returned parameters is "
+            "the returned value; in log mode the selected sign branch has the smallest value among the branches tried and chi2_min is a running minimum. test_all.chi2_fcn is verified from its AST for any number of parameters: the likelihood is evaluated exactly at p with p_i = x_i (sign None), "
             "10**x_i ('+') or -10**x_i ('-'), at x itself when signs is None, its value is returned, and ValueError escapes only for an invalid sign marker. "
             "Convergence of the multi-start BFGS search is not a decidable contract: that clause (NLL within tolerance of the closed-form weighted-least-squares minimum, parameters "
             "reproduce it, sign patterns, log-space mode, parameter-free and NaN functions) is decided by the bounded stand-in on the real optimise_fun against closed-form WLS, "
-            "which is sampled and not counted as proved. The back-transformation of the selected result in optimise_fun (mult_arr / flag_three bookkeeping) is covered by that bounded part only.",
+            "which is sampled and not counted as proved. ",
     "note": "A-float; 10**x is an uninterpreted positive function; the likelihood is an uninterpreted function of the parameter vector. Bounded part: tolerances 1e-3 rel / 1e-2 abs on NLL.",
     "technique": "contract-based deductive verification of the reparametrisation (AST->VC->SMT) + bounded stand-in against closed-form least squares",
 }
@@ -22,6 +25,9 @@ def check(run):
         st, failed, eng = D.verify_function(run, "fitting/test_all.py", "chi2_fcn", (lambda sn=sn: c_test_all.chi2_fcn_contract(sn)), timeout_ms=8000,
                                             note="verified for signs=None and for a list of sign markers of any length")
         failed_all += failed
+    st2, failed2, eng2 = D.verify_function(run, "fitting/test_all.py", "optimise_fun", c_test_all.optimise_region_contract, timeout_ms=8000,
+                                           note="region: multi-start loop, sign-branch selection and back-transformation; scipy.optimize.minimize opaque with its documented contract")
+    failed_all += failed2
     if D.canary(run, "fitting/test_all.py", "chi2_fcn", (lambda: c_test_all.chi2_fcn_contract(False))) is False:
         raise RuntimeError("canary verified: engine vacuous on chi2_fcn")
     found, B = _wrap.run_bounded(run, "checks.C10_bounded")
